@@ -78,8 +78,15 @@ func runMutant(m Mutant) mutantResult {
 		return res
 	}
 	have := map[string]bool{}
+	expectSet := map[string]bool{}
+	for _, n := range spec.Expect {
+		expectSet[n] = true
+	}
 	for _, a := range cr.aggs {
 		have[a.Name] = true
+		if isErrProp(a.Name) && !expectSet[a.Name] {
+			continue
+		}
 		if a.Status != "proved" {
 			res.Failing = append(res.Failing, a.Name)
 		} else if a.vacuousParts() > spec.Vacuous[a.Name] {
